@@ -110,18 +110,24 @@ Inductive ft_spec (fs : list msg) (T D R : list N) (base : N) : ft -> Prop :=
     fs = fa ++ fb -> D = fcat fa ++ D' -> nlen D' < 5 -> D' ++ R = fcat fb ++ T ->
     ft_spec fs T D R base (FT_Done (base + nlen (fcat fa)))
 | FS_trailer D' :
-    D = fcat fs ++ D' -> 5 <= nlen D' -> D' ++ R = T ->
+    D = fcat fs ++ D' -> 5 <= nlen D' -> D' ++ R = T -> hd_error T = Some GRPC_WEB_TRAILERS_BIT ->
     ft_spec fs T D R base (FT_Trailer (base + nlen (fcat fs)))
 | FS_incomplete fa x fb D' :
     fs = fa ++ x :: fb -> D = fcat fa ++ D' -> 5 <= nlen D' -> nlen D' < nlen (fbytes x) ->
     D' ++ R = fbytes x ++ fcat fb ++ T ->
-    ft_spec fs T D R base FT_Incomplete.
+    ft_spec fs T D R base FT_Incomplete
+| FS_bad D' h t :
+    D = fcat fs ++ D' -> 5 <= nlen D' -> D' ++ R = T -> T = h :: t -> h <> GRPC_WEB_TRAILERS_BIT ->
+    ft_spec fs T D R base (FT_Err h).
 
 Lemma ft_spec_shift x r T D2 R base res :
   ft_spec r T D2 R (base + nlen (fbytes x)) res ->
   ft_spec (x :: r) T (fbytes x ++ D2) R base res.
 Proof.
-  intros H. inversion H as [fa fb D' E1 E2 E3 E4 | D' E2 E3 E4 | fa y fb D' E1 E2 E3 E5 E4]; subst.
+  intros H. inversion H as [fa fb D' E1 E2 E3 E4 | D' E2 E3 E4 E8 | fa y fb D' E1 E2 E3 E5 E4
+                            | D' h t E2 E3 E4 E6 E7]; subst.
+  4:{ apply (FS_bad _ _ _ _ _ D' h t); try assumption; try reflexivity.
+      rewrite fcat_cons, app_assoc. reflexivity. }
   - replace (base + nlen (fbytes x) + nlen (fcat fa)) with (base + nlen (fcat (x :: fa)))
       by (rewrite fcat_cons, nlen_app; lia).
     apply (FS_done _ _ _ _ _ (x :: fa) fb D'); try assumption; try reflexivity.
@@ -134,11 +140,14 @@ Proof.
     rewrite fcat_cons, app_assoc. reflexivity.
 Qed.
 
-Lemma ft_walk fs : forall T, (exists t, T = GRPC_WEB_TRAILERS_BIT :: t) -> Forall msg_ok fs ->
+Definition tail_head (T : list N) : Prop :=
+  exists h t, T = h :: t /\ (h = GRPC_WEB_TRAILERS_BIT \/ (h <> 0 /\ h <> 1 /\ h <> GRPC_WEB_TRAILERS_BIT)).
+
+Lemma ft_walk fs : forall T, tail_head T -> Forall msg_ok fs ->
   forall pre D R fuel, D ++ R = fcat fs ++ T -> nlen D / 5 < N.of_nat fuel ->
   ft_spec fs T D R (nlen pre) (find_trailers_loop fuel (pre ++ D) (nlen pre)).
 Proof.
-  intros T [t HT]. induction fs as [|x r IH]; intros Hok pre D R fuel HD HF.
+  intros T (h0 & t & HT & Hh0). induction fs as [|x r IH]; intros Hok pre D R fuel HD HF.
   - (* no frame left: D is a prefix of T *)
     destruct fuel as [|f]; [lia|]. cbn [find_trailers_loop]. rewrite ndrop_app_len.
     cbn [fcat map concat app] in HD.
@@ -147,11 +156,18 @@ Proof.
       apply (FS_done _ _ _ _ _ [] [] D); try reflexivity; assumption. }
     destruct D as [|h [|a [|b [|c [|d D5]]]]]; try (apply Short; rewrite ?nlen_cons, ?nlen_nil; cbn; lia).
     rewrite HT in HD. cbn [app] in HD. injection HD as -> HD.
-    rewrite N.eqb_refl.
-    replace (nlen pre) with (nlen pre + nlen (fcat [])) at 2 by (cbn; lia).
-    apply (FS_trailer _ _ _ _ _ (GRPC_WEB_TRAILERS_BIT :: a :: b :: c :: d :: D5)); try reflexivity.
-    + rewrite !nlen_cons. lia.
-    + rewrite HT. cbn [app]. f_equal. exact HD.
+    destruct Hh0 as [->|(N0 & N1 & N128)].
+    + rewrite N.eqb_refl.
+      replace (nlen pre) with (nlen pre + nlen (fcat [])) at 2 by (cbn; lia).
+      apply (FS_trailer _ _ _ _ _ (GRPC_WEB_TRAILERS_BIT :: a :: b :: c :: d :: D5)); try reflexivity.
+      * rewrite !nlen_cons. lia.
+      * rewrite HT. cbn [app]. f_equal. exact HD.
+      * rewrite HT. reflexivity.
+    + replace (h0 =? GRPC_WEB_TRAILERS_BIT) with false by lia.
+      replace (negb ((h0 =? 0) || (h0 =? 1))) with true by lia.
+      apply (FS_bad _ _ _ _ _ (h0 :: a :: b :: c :: d :: D5) h0 t); try reflexivity; try assumption.
+      * rewrite !nlen_cons. lia.
+      * rewrite HT. cbn [app]. f_equal. exact HD.
   - destruct fuel as [|f]; [lia|]. cbn [find_trailers_loop]. rewrite ndrop_app_len.
     inversion Hok as [|x' r' [Hflag Hlen] Hr]; subst x' r'.
     destruct x as [flag p]. cbn [fst snd] in Hflag, Hlen.
@@ -196,11 +212,11 @@ Proof.
 Qed.
 
 (* ---------- the trailers frame ---------- *)
-Lemma split_trailers_frame_spec P D R :
-  nlen P <= U32_MAX -> D ++ R = frame GRPC_WEB_TRAILERS_BIT P -> 5 <= nlen D ->
+Lemma split_trailers_frame_spec P Y D R :
+  nlen P <= U32_MAX -> D ++ R = frame GRPC_WEB_TRAILERS_BIT P ++ Y -> 5 <= nlen D ->
   (nlen D < 5 + nlen P /\ split_trailers_frame D = None) \/
-  (D = frame GRPC_WEB_TRAILERS_BIT P /\ R = [] /\
-   split_trailers_frame D = Some (frame GRPC_WEB_TRAILERS_BIT P, [])).
+  (exists Y1, D = frame GRPC_WEB_TRAILERS_BIT P ++ Y1 /\ Y1 ++ R = Y /\
+   split_trailers_frame D = Some (frame GRPC_WEB_TRAILERS_BIT P, Y1)).
 Proof.
   intros LP H L. unfold U32_MAX in LP.
   destruct D as [|h [|a [|b [|c [|d rest]]]]]; try (rewrite ?nlen_cons, ?nlen_nil in L; cbn in L; lia).
@@ -209,12 +225,15 @@ Proof.
   destruct (nlen rest <? nlen P) eqn:E.
   - left. split; [rewrite !nlen_cons; lia|reflexivity].
   - right.
-    assert (H' : rest ++ R = P ++ []) by (rewrite app_nil_r; exact H).
-    destruct (app_split _ _ _ _ H' ltac:(lia)) as [D2 [-> E2]].
-    apply app_eq_nil in E2 as [-> ->]. rewrite app_nil_r in *.
-    rewrite <- frame_unfold.
-    split; [reflexivity|]. split; [reflexivity|].
-    rewrite ntake_all, ndrop_all by (rewrite nlen_frame; lia). reflexivity.
+    destruct (app_split _ _ _ _ H ltac:(lia)) as [Y1 [-> E2]].
+    exists Y1.
+    assert (ED : GRPC_WEB_TRAILERS_BIT :: (nlen P / 16777216) mod 256 :: (nlen P / 65536) mod 256
+                   :: (nlen P / 256) mod 256 :: nlen P mod 256 :: P ++ Y1
+                 = frame GRPC_WEB_TRAILERS_BIT P ++ Y1) by (rewrite frame_unfold; reflexivity).
+    rewrite ED.
+    split; [reflexivity|]. split; [exact E2|].
+    replace (5 + nlen P) with (nlen (frame GRPC_WEB_TRAILERS_BIT P)) by (rewrite nlen_frame; reflexivity).
+    now rewrite ntake_app_len, ndrop_app_len.
 Qed.
 
 (* what makes a trailer list one that a HeaderMap can hold and the block can carry *)
@@ -387,30 +406,73 @@ Proof.
   - destruct (n =? 0); [reflexivity|]. destruct (nlen D <? n); reflexivity.
 Qed.
 
+(* ---------- what follows the message frames ---------- *)
+Inductive tail_kind :=
+| TK_trailers (P Y : list N) (res : hm + werr)   (* a complete trailers frame with block P, then Y *)
+| TK_bad (h : N) (t : list N).                   (* a byte that is no legal flag, then t *)
+
+Definition tail_bytes (tk : tail_kind) : list N :=
+  match tk with
+  | TK_trailers P Y _ => frame GRPC_WEB_TRAILERS_BIT P ++ Y
+  | TK_bad h t => h :: t
+  end.
+Definition tail_ok (tk : tail_kind) : Prop :=
+  match tk with
+  | TK_trailers P Y res =>
+      nlen P <= U32_MAX /\
+      decode_trailers_frame (frame GRPC_WEB_TRAILERS_BIT P) =
+        match res with inl rb => DOk (Some rb) | inr e => DErr e end
+  | TK_bad h t => h <> 0 /\ h <> 1 /\ h <> GRPC_WEB_TRAILERS_BIT /\ 4 <= nlen t
+  end.
+(* how the stream ends when everything arrives *)
+Definition expected_end (tk : tail_kind) : list out :=
+  match tk with
+  | TK_trailers _ Y (inl rb) => if nonempty Y then [OErr E_DataAfterTrailers] else [OTrailers rb; ONone]
+  | TK_trailers _ _ (inr e) => [OErr e]
+  | TK_bad h _ => [OErr (E_BadFlag h)]
+  end.
+Definition is_bad (tk : tail_kind) : bool := match tk with TK_bad _ _ => true | _ => false end.
+
 Section Body.
-  (* the trailers of the response *)
-  Variable tl : hm.
-  Hypothesis tl_ok : trailers_ok tl = true.
-  Hypothesis tl_len : nlen (encode_trailers tl) <= U32_MAX.
-  Hypothesis tl_count : nlen tl <= HM_MAX_NAMES.
+  Variable tk : tail_kind.
+  Hypothesis tk_ok : tail_ok tk.
 
-  Let T := trailers_frame tl.
-  Let rb := read_back tl.
+  Let T := tail_bytes tk.
 
-  Lemma T_head : exists t, T = GRPC_WEB_TRAILERS_BIT :: t.
-  Proof. unfold T, trailers_frame. rewrite frame_unfold. eexists. reflexivity. Qed.
-  Lemma T_len : nlen T = 5 + nlen (encode_trailers tl).
-  Proof. unfold T, trailers_frame. apply nlen_frame. Qed.
+  Lemma tk_cases : (exists P Y res, tk = TK_trailers P Y res) \/ (exists h t, tk = TK_bad h t).
+  Proof. destruct tk as [P Y res|h t]; [left; now exists P, Y, res|right; now exists h, t]. Qed.
 
-  (* the four things hand_out can do on a prefix [D] of a well-formed body *)
+  Lemma T_head : tail_head T.
+  Proof.
+    unfold T, tail_head. destruct tk as [P Y res|h t]; cbn [tail_bytes].
+    - rewrite frame_unfold. cbn [app]. do 2 eexists. split; [reflexivity|left; reflexivity].
+    - destruct tk_ok as (A & B & C & _). exists h, t. split; [reflexivity|right; tauto].
+  Qed.
+  Lemma T_len : 5 <= nlen T.
+  Proof.
+    unfold T. destruct tk as [P Y res|h t]; cbn [tail_bytes].
+    - rewrite nlen_app, nlen_frame. lia.
+    - destruct tk_ok as (_ & _ & _ & L). rewrite nlen_cons. lia.
+  Qed.
+  Lemma T_nonempty : T <> [].
+  Proof. pose proof T_len as L. intros E. rewrite E in L. unfold nlen in L. cbn in L. lia. Qed.
+
+  (* what hand_out can do on a prefix [D] of such a body *)
   Inductive hand_spec (s : st) (fs : list msg) (R : list N) : hand -> Prop :=
   | HS_empty : decoded s = [] -> hand_spec s fs R (HFall s)
   | HS_data fa fb D' :
       fa <> [] -> fs = fa ++ fb -> decoded s = fcat fa ++ D' -> D' ++ R = fcat fb ++ T ->
       hand_spec s fs R (HRet (OData (fcat fa)) (set_decoded s D'))
-  | HS_trailers :
-      fs = [] -> decoded s = T -> R = [] ->
-      hand_spec s fs R (HCont (set_trailers (set_decoded s []) (Some rb)))
+  | HS_trailers P Y rb Y1 :
+      tk = TK_trailers P Y (inl rb) -> fs = [] ->
+      decoded s = frame GRPC_WEB_TRAILERS_BIT P ++ Y1 -> Y1 ++ R = Y ->
+      hand_spec s fs R (HCont (set_trailers (set_decoded s Y1) (Some rb)))
+  | HS_trailers_err P Y e Y1 :
+      tk = TK_trailers P Y (inr e) -> fs = [] ->
+      decoded s = frame GRPC_WEB_TRAILERS_BIT P ++ Y1 -> Y1 ++ R = Y ->
+      hand_spec s fs R (HRet (OErr e) (set_empty (set_decoded s Y1)))
+  | HS_bad h t :
+      tk = TK_bad h t -> hand_spec s fs R (HRet (OErr (E_BadFlag h)) (set_empty s))
   | HS_wait :
       decoded s <> [] -> R <> [] ->
       (nlen (decoded s) < 5 \/ fs = [] \/
@@ -432,13 +494,15 @@ Section Body.
     pose proof (ft_walk fs T T_head Hok [] (decoded s) R (S (length (decoded s))) HD) as W.
     cbn [app] in W. change (nlen (@nil N)) with 0 in W. fold (find_trailers (decoded s)) in W.
     specialize (W ltac:(unfold nlen; lia)).
-    inversion W as [fa fb D' E1 E2 E3 E4 | D' E2 E3 E4 | fa y fb D' E1 E2 E3 E5 E4].
+    pose proof T_len as TL.
+    inversion W as [fa fb D' E1 E2 E3 E4 | D' E2 E3 E4 E8 | fa y fb D' E1 E2 E3 E5 E4
+                   | D' h t E2 E3 E4 E6 E7].
     - (* Done *)
       destruct fa as [|x fa].
       + cbn [fcat map concat]. change (nlen (@nil N)) with 0. cbn [N.add]. rewrite N.eqb_refl.
         cbn [fcat map concat app] in E2. rewrite <- E2 in E3.
         apply HS_wait; [exact NE'| |left; exact E3].
-        apply (app_longer_ne _ _ _ HD). rewrite nlen_app, T_len. lia.
+        apply (app_longer_ne _ _ _ HD). rewrite nlen_app. lia.
       + assert (L : 0 < nlen (fcat (x :: fa))) by (rewrite fcat_cons, nlen_app, nlen_fbytes; lia).
         replace (0 + nlen (fcat (x :: fa)) =? 0) with false by lia.
         rewrite E2 at 1. rewrite nlen_app.
@@ -449,12 +513,17 @@ Section Body.
       destruct fs as [|x fs'].
       + cbn [fcat map concat]. change (nlen (@nil N)) with 0. cbn [N.add]. rewrite N.eqb_refl.
         cbn [fcat map concat app] in E2. subst D'.
-        destruct (split_trailers_frame_spec _ _ _ tl_len E4 E3) as [[L ->]|[ED [ER ->]]].
+        pose proof tk_ok as OK.
+        unfold T in E4, E8. destruct tk_cases as [(P & Y & res & Etk)|(h & t & Etk)];
+          rewrite Etk in E4, E8, OK; cbn [tail_bytes tail_ok] in E4, E8, OK.
+        2:{ cbn in E8. destruct OK as (_ & _ & C & _). congruence. }
+        destruct OK as [LP Hdec].
+        destruct (split_trailers_frame_spec _ _ _ _ LP E4 E3) as [[L ->]|(Y1 & ED & ER & ->)].
         * apply HS_wait; [exact NE'| |right; left; reflexivity].
-          apply (app_longer_ne _ _ _ E4). unfold T, trailers_frame.
-          rewrite nlen_frame. exact L.
-        * fold (trailers_frame tl). rewrite (decode_trailers_frame_ok tl tl_ok tl_count).
-          apply HS_trailers; try reflexivity; assumption.
+          apply (app_longer_ne _ _ _ E4). rewrite nlen_app, nlen_frame. lia.
+        * rewrite Hdec. destruct res as [rb|e].
+          -- apply (HS_trailers _ _ _ P Y rb Y1); try reflexivity; assumption.
+          -- apply (HS_trailers_err _ _ _ P Y e Y1); try reflexivity; assumption.
       + assert (L : 0 < nlen (fcat (x :: fs'))) by (rewrite fcat_cons, nlen_app, nlen_fbytes; lia).
         replace (0 + nlen (fcat (x :: fs')) =? 0) with false by lia.
         rewrite E2 at 1. rewrite nlen_app.
@@ -465,9 +534,14 @@ Section Body.
     - (* Incomplete *)
       apply HS_wait; [exact NE'| |right; right; exists fa, y, fb, D'; repeat split; assumption].
       intros ->. rewrite app_nil_r in E4. rewrite E4 in E5. rewrite !nlen_app in E5. lia.
+    - (* a byte that is no flag *)
+      unfold T in E6. destruct tk_cases as [(P & Y & res & Etk)|(h' & t' & Etk)];
+        rewrite Etk in E6; cbn [tail_bytes] in E6.
+      + rewrite frame_unfold in E6. cbn [app] in E6. congruence.
+      + injection E6 as <- <-. now apply (HS_bad _ _ _ h' t').
   Qed.
 
-  (* ---------- one call of poll_frame on a well-formed body ---------- *)
+  (* ---------- one call of poll_frame on such a body ---------- *)
   Definition dp (e : ev) : Prop := is_data_or_pending e = true.
   Definition avail (s : st) (i : inner) : list N := decoded s ++ concat (datas (i_evs i)).
 
@@ -475,71 +549,21 @@ Section Body.
   Definition P1 (s : st) (i : inner) (fs : list msg) (U : list N) : Prop :=
     dir s = Decode /\ trailers s = None /\ inner_done s = false /\
     Forall dp (i_evs i) /\ Forall msg_ok fs /\ avail s i ++ U = fcat fs ++ T.
-  (* after it *)
-  Definition P2 (s : st) (i : inner) : Prop :=
-    dir s = Decode /\ decoded s = [] /\ trailers s = Some rb /\ inner_done s = false /\
-    Forall dp (i_evs i) /\ concat (datas (i_evs i)) = [].
+  (* after it: [Y] is what follows the trailers frame *)
+  Definition P2 (rb : hm) (Y : list N) (s : st) (i : inner) (U : list N) : Prop :=
+    dir s = Decode /\ trailers s = Some rb /\ inner_done s = false /\
+    Forall dp (i_evs i) /\ avail s i ++ U = Y.
   Definition Fin (s : st) : Prop :=
     dir s = Decode /\ decoded s = [] /\ trailers s = None /\ inner_done s = true.
 
   Lemma hand_out_empty s : decoded s = [] -> hand_out s = HFall s.
   Proof. intros H. unfold hand_out. now rewrite H. Qed.
-
-  Inductive res2 (n : nat) : out * st * inner -> Prop :=
-  | R2_pending s' i' : P2 s' i' -> (length (i_evs i') < n)%nat -> res2 n (OPending, s', i')
-  | R2_trailers s' i' : Fin s' -> i_evs i' = [] -> res2 n (OTrailers rb, s', i').
-
-  Lemma loop2 evs : forall fuel s p e, P2 s (mkInner evs p e) -> (length evs + 2 <= fuel)%nat ->
-    res2 (length evs) (loop fuel s (mkInner evs p e)).
+  Lemma hand_out_after s t : decoded s <> [] -> trailers s = Some t ->
+    hand_out s = HRet (OErr E_DataAfterTrailers) (set_empty s).
   Proof.
-    induction evs as [|x r IH]; intros fuel s p e (Hd & HD & Ht & Hn & Hdp & Hc) Hf.
-    - destruct fuel as [|[|f]]; try (cbn in Hf; lia).
-      cbn [loop]. unfold iter at 1. rewrite (hand_out_empty s HD), Hn.
-      cbn [poll_inner i_evs].
-      unfold iter. rewrite hand_out_empty by (destruct s; exact HD).
-      destruct s as [D tr dn di]; cbn in *. subst. cbn.
-      apply R2_trailers; [repeat split|reflexivity].
-    - destruct fuel as [|f]; [cbn in Hf; lia|].
-      cbn [loop]. unfold iter. rewrite (hand_out_empty s HD), Hn.
-      cbn [poll_inner i_evs]. inversion Hdp as [|x' r' Hx Hr]; subst x' r'.
-      destruct x as [|d|t|]; try (unfold dp in Hx; cbn in Hx; discriminate).
-      + cbn [answer_of]. apply R2_pending; [|cbn; lia].
-        repeat split; try assumption.
-      + cbn [answer_of]. cbn [datas concat] in Hc. apply app_eq_nil in Hc as [-> Hc].
-        rewrite HD. cbn [app].
-        assert (Q : P2 (set_decoded s []) (mkInner r (p + 1) e)).
-        { destruct s as [D tr dn di]; cbn in *. subst. repeat split; assumption. }
-        pose proof (IH f (set_decoded s []) (p + 1) e Q ltac:(cbn [length] in Hf; lia)) as W.
-        cbn [i_polls i_ends].
-        remember (loop f (set_decoded s []) (mkInner r (p + 1) e)) as res eqn:ER. clear ER.
-        destruct W as [s' i' Q' L|s' i' Q' L].
-        * apply R2_pending; [exact Q'|cbn [length]; lia].
-        * apply R2_trailers; assumption.
+    intros H Ht. unfold hand_out. rewrite Ht.
+    destruct (decoded s); [congruence|reflexivity].
   Qed.
-
-  Inductive res1 (s : st) (i : inner) (fs : list msg) (U : list N) : out * st * inner -> Prop :=
-  | R1_pending s' i' :
-      P1 s' i' fs U -> (length (i_evs i') < length (i_evs i))%nat ->
-      res1 s i fs U (OPending, s', i')
-  | R1_data fa fb s' i' :
-      fa <> [] -> fs = fa ++ fb -> P1 s' i' fb U ->
-      (length (i_evs i') <= length (i_evs i))%nat ->
-      res1 s i fs U (OData (fcat fa), s', i')
-  | R1_pending2 s' i' :
-      fs = [] -> U = [] -> P2 s' i' -> (length (i_evs i') < length (i_evs i))%nat ->
-      res1 s i fs U (OPending, s', i')
-  | R1_trailers s' i' :
-      fs = [] -> U = [] -> Fin s' -> i_evs i' = [] ->
-      res1 s i fs U (OTrailers rb, s', i')
-  | R1_eof s' i' s0 :
-      U <> [] -> decoded s' = avail s i -> decoded s' <> [] ->
-      trailers s0 = None -> decoded s0 = decoded s' -> hand_out s0 = HFall s0 ->
-      res1 s i fs U (OErr E_EOF, s', i')
-  | R1_end s' i' :
-      U <> [] -> avail s i = [] -> res1 s i fs U (ONone, s', i').
-
-  Lemma T_nonempty : T <> [].
-  Proof. destruct T_head as [t ->]. discriminate. Qed.
 
   Lemma loop_ret f s i o s' : hand_out s = HRet o s' -> loop (S f) s i = (o, s', i).
   Proof. intros H. cbn [loop]. unfold iter. now rewrite H. Qed.
@@ -576,6 +600,94 @@ Section Body.
   Lemma hand_out_done_fall s : hand_out s = HFall s -> hand_out (set_done s) = HFall (set_done s).
   Proof. intros H. now rewrite hand_out_set_done, H. Qed.
 
+  Inductive res2 (rb : hm) (Y U : list N) (s : st) (i : inner) : out * st * inner -> Prop :=
+  | R2_pending s' i' :
+      P2 rb Y s' i' U -> (length (i_evs i') < length (i_evs i))%nat -> avail s' i' = avail s i ->
+      res2 rb Y U s i (OPending, s', i')
+  | R2_trailers s' i' :
+      Fin s' -> i_evs i' = [] -> avail s i = [] -> res2 rb Y U s i (OTrailers rb, s', i')
+  | R2_err s' i' :
+      avail s i <> [] -> res2 rb Y U s i (OErr E_DataAfterTrailers, s', i').
+
+  Lemma loop2 rb Y U evs : forall fuel s p e,
+    P2 rb Y s (mkInner evs p e) U -> (length evs + 2 <= fuel)%nat ->
+    res2 rb Y U s (mkInner evs p e) (loop fuel s (mkInner evs p e)).
+  Proof.
+    induction evs as [|x r IH]; intros fuel s p e (Hd & Ht & Hn & Hdp & HA) Hf.
+    - destruct fuel as [|[|f]]; try (cbn in Hf; lia).
+      destruct (decoded s) as [|b D] eqn:ED.
+      + rewrite (loop_fall _ _ _ (hand_out_empty s ED) Hn). cbn [poll_inner i_evs answer_of].
+        rewrite (loop_fall_done _ _ _ (hand_out_done_fall _ (hand_out_empty s ED)) eq_refl).
+        cbn [set_done decoded trailers]. rewrite ED, Ht. cbn [nonempty].
+        apply R2_trailers; [|reflexivity|].
+        * repeat split; cbn; try assumption; reflexivity.
+        * unfold avail. cbn [i_evs datas concat]. now rewrite ED.
+      + rewrite (loop_ret _ _ _ _ _ (hand_out_after s rb ltac:(rewrite ED; discriminate) Ht)).
+        apply R2_err. unfold avail. rewrite ED. discriminate.
+    - destruct fuel as [|f]; [cbn in Hf; lia|].
+      cbn [i_evs] in Hdp. inversion Hdp as [|x' r' Hx Hr]; subst x' r'.
+      destruct (decoded s) as [|b D] eqn:ED.
+      + rewrite (loop_fall _ _ _ (hand_out_empty s ED) Hn). cbn [poll_inner i_evs i_polls i_ends].
+        destruct x as [|d|t|]; try (unfold dp in Hx; cbn in Hx; discriminate); cbn [answer_of].
+        * apply R2_pending; [|cbn; lia|reflexivity]. repeat split; try assumption.
+        * assert (EA : avail (set_decoded s (decoded s ++ d)) (mkInner r (p + 1) e)
+                       = avail s (mkInner (EvData d :: r) p e)).
+          { unfold avail. cbn [set_decoded decoded i_evs datas concat]. now rewrite !app_assoc. }
+          assert (Q : P2 rb Y (set_decoded s (decoded s ++ d)) (mkInner r (p + 1) e) U).
+          { repeat split; try assumption. now rewrite EA. }
+          pose proof (IH f _ (p + 1) e Q ltac:(cbn [length] in Hf; lia)) as W.
+          remember (loop f _ _) as res eqn:ER. clear ER.
+          destruct W as [s' i' Q' L E|s' i' Q' L E|s' i' E].
+          -- apply R2_pending; [exact Q'|cbn [i_evs length] in *; lia|now rewrite <- EA].
+          -- apply R2_trailers; try assumption. now rewrite <- EA.
+          -- apply R2_err. now rewrite <- EA.
+      + rewrite (loop_ret _ _ _ _ _ (hand_out_after s rb ltac:(rewrite ED; discriminate) Ht)).
+        apply R2_err. unfold avail. rewrite ED. discriminate.
+  Qed.
+
+  Inductive res1 (s : st) (i : inner) (fs : list msg) (U : list N) : out * st * inner -> Prop :=
+  | R1_pending s' i' :
+      P1 s' i' fs U -> (length (i_evs i') < length (i_evs i))%nat ->
+      res1 s i fs U (OPending, s', i')
+  | R1_data fa fb s' i' :
+      fa <> [] -> fs = fa ++ fb -> P1 s' i' fb U ->
+      (length (i_evs i') <= length (i_evs i))%nat ->
+      res1 s i fs U (OData (fcat fa), s', i')
+  | R1_pending2 P Y rb s' i' :
+      tk = TK_trailers P Y (inl rb) -> fs = [] -> P2 rb Y s' i' U ->
+      (length (i_evs i') < length (i_evs i))%nat ->
+      res1 s i fs U (OPending, s', i')
+  | R1_trailers P Y rb s' i' :
+      tk = TK_trailers P Y (inl rb) -> fs = [] -> Y = U -> Fin s' -> i_evs i' = [] ->
+      res1 s i fs U (OTrailers rb, s', i')
+  | R1_after P Y rb a s' i' :
+      tk = TK_trailers P Y (inl rb) -> fs = [] -> a <> [] -> a ++ U = Y ->
+      res1 s i fs U (OErr E_DataAfterTrailers, s', i')
+  | R1_trailer_err P Y e s' i' :
+      tk = TK_trailers P Y (inr e) -> fs = [] -> res1 s i fs U (OErr e, s', i')
+  | R1_bad h t s' i' :
+      tk = TK_bad h t -> res1 s i fs U (OErr (E_BadFlag h), s', i')
+  | R1_eof s' i' s0 :
+      U <> [] -> decoded s' = avail s i -> decoded s' <> [] ->
+      trailers s0 = None -> decoded s0 = decoded s' -> hand_out s0 = HFall s0 ->
+      res1 s i fs U (OErr E_EOF, s', i')
+  | R1_end s' i' :
+      U <> [] -> avail s i = [] -> res1 s i fs U (ONone, s', i').
+
+  (* what loop2 found, seen from loop1 *)
+  Lemma res2_res1 P Y rb s i fs U s2 i2 res :
+    tk = TK_trailers P Y (inl rb) -> fs = [] -> P2 rb Y s2 i2 U ->
+    (length (i_evs i2) <= length (i_evs i))%nat ->
+    res2 rb Y U s2 i2 res -> res1 s i fs U res.
+  Proof.
+    intros Etk Efs Q L W. destruct W as [s' i' Q' L' E|s' i' Q' L' E|s' i' E].
+    - apply (R1_pending2 _ _ _ _ P Y rb); try assumption. lia.
+    - apply (R1_trailers _ _ _ _ P Y rb); try assumption.
+      destruct Q as (_ & _ & _ & _ & A). rewrite E in A. exact (eq_sym A).
+    - apply (R1_after _ _ _ _ P Y rb (avail s2 i2)); try assumption.
+      destruct Q as (_ & _ & _ & _ & A). exact A.
+  Qed.
+
   Lemma loop1 evs : forall fuel s p e fs U,
     P1 s (mkInner evs p e) fs U -> (length evs + 3 <= fuel)%nat ->
     res1 s (mkInner evs p e) fs U (loop fuel s (mkInner evs p e)).
@@ -585,7 +697,8 @@ Section Body.
       destruct fuel as [|[|f]]; try (cbn in Hf; lia).
       unfold avail in HA. cbn [i_evs datas concat] in HA. rewrite app_nil_r in HA.
       pose proof (hand_out_spec s fs U Ht Hok HA) as HS.
-      inversion HS as [E0 EH|fa fb D' Nfa Efs ED ER EH|Efs ED ER EH|NE NR WH EH]; symmetry in EH.
+      inversion HS as [E0 EH|fa fb D' Nfa Efs ED ER EH|P Y rb Y1 Etk Efs ED ER EH
+                      |P Y e0 Y1 Etk Efs ED ER EH|h t Etk EH|NE NR WH EH]; symmetry in EH.
       + (* nothing buffered, nothing to come: a clean end without trailers *)
         rewrite (loop_fall _ _ _ EH Hn). cbn [poll_inner i_evs answer_of].
         rewrite (loop_fall_done _ _ _ (hand_out_done_fall _ EH) eq_refl).
@@ -602,13 +715,13 @@ Section Body.
         * cbn. lia.
       + (* the complete trailers frame *)
         rewrite (loop_cont _ _ _ _ EH).
-        subst fs U.
-        assert (Q : P2 (set_trailers (set_decoded s []) (Some rb)) (mkInner [] p e)).
-        { destruct s; cbn in *. repeat split; try assumption; reflexivity. }
-        pose proof (loop2 [] (S f) _ p e Q ltac:(cbn; lia)) as W.
-        remember (loop (S f) _ _) as res eqn:ER'. clear ER'.
-        destruct W as [s' i' Q' L|s' i' Q' L]; [cbn in L; lia|].
-        apply R1_trailers; try reflexivity; assumption.
+        assert (Q : P2 rb Y (set_trailers (set_decoded s Y1) (Some rb)) (mkInner [] p e) U).
+        { destruct s; cbn in *. repeat split; try assumption.
+          unfold avail. cbn. rewrite app_nil_r. exact ER. }
+        refine (res2_res1 P Y rb _ _ _ _ _ _ _ Etk Efs Q _ _); [cbn; lia|].
+        apply loop2; [exact Q|cbn; lia].
+      + rewrite (loop_ret _ _ _ _ _ EH). now apply (R1_trailer_err _ _ _ _ P Y e0).
+      + rewrite (loop_ret _ _ _ _ _ EH). now apply (R1_bad _ _ _ _ h t).
       + (* an incomplete frame at EOF *)
         rewrite (loop_fall _ _ _ EH Hn). cbn [poll_inner i_evs answer_of].
         rewrite (loop_fall_done _ _ _ (hand_out_done_fall _ EH) eq_refl).
@@ -636,15 +749,21 @@ Section Body.
                        = avail s (mkInner (EvData d :: r) p e)).
           { unfold avail. cbn [set_decoded decoded i_evs datas concat]. now rewrite !app_assoc. }
           remember (loop f _ _) as res eqn:ER'. clear ER'.
-          destruct W as [s' i' Q' L|fa fb s' i' Nfa Efs Q' L|s' i' Efs EU Q' L|s' i' Efs EU Q' L
+          destruct W as [s' i' Q' L|fa fb s' i' Nfa Efs Q' L|P Y rb s' i' Etk Efs Q' L
+                        |P Y rb s' i' Etk Efs EY Q' L|P Y rb a s' i' Etk Efs Na Ea
+                        |P Y e0 s' i' Etk Efs|h t s' i' Etk
                         |s' i' s0 NU E1 E2 E3 E4 E5|s' i' NU E1].
           + apply R1_pending; [exact Q'|cbn [i_evs length] in *; lia].
           + apply (R1_data _ _ _ _ fa fb); try assumption. cbn [i_evs length] in *; lia.
-          + apply R1_pending2; try assumption. cbn [i_evs length] in *; lia.
-          + apply R1_trailers; assumption.
+          + apply (R1_pending2 _ _ _ _ P Y rb); try assumption. cbn [i_evs length] in *; lia.
+          + now apply (R1_trailers _ _ _ _ P Y rb).
+          + now apply (R1_after _ _ _ _ P Y rb a).
+          + now apply (R1_trailer_err _ _ _ _ P Y e0).
+          + now apply (R1_bad _ _ _ _ h t).
           + apply (R1_eof _ _ _ _ _ _ s0); try assumption. now rewrite <- EA.
           + apply R1_end; try assumption. now rewrite <- EA. }
-      inversion HS as [E0 EH|fa fb D' Nfa Efs ED ER EH|Efs ED ER EH|NE NR WH EH]; symmetry in EH.
+      inversion HS as [E0 EH|fa fb D' Nfa Efs ED ER EH|P Y rb Y1 Etk Efs ED ER EH
+                      |P Y e0 Y1 Etk Efs ED ER EH|h t Etk EH|NE NR WH EH]; symmetry in EH.
       + now apply Step.
       + rewrite (loop_ret _ _ _ _ _ EH).
         apply (R1_data _ _ _ _ fa fb); try assumption; [|cbn; lia].
@@ -652,14 +771,13 @@ Section Body.
         * subst fs. rewrite Forall_app in Hok. tauto.
         * unfold avail. cbn [set_decoded decoded i_evs]. rewrite <- app_assoc. exact ER.
       + rewrite (loop_cont _ _ _ _ EH).
-        subst fs. apply app_eq_nil in ER as [EC EU]. subst U.
-        assert (Q : P2 (set_trailers (set_decoded s []) (Some rb)) (mkInner (x :: r) p e)).
-        { destruct s; cbn in *. repeat split; try assumption; reflexivity. }
-        pose proof (loop2 (x :: r) f _ p e Q ltac:(cbn [length] in *; lia)) as W.
-        remember (loop f _ _) as res eqn:ER'. clear ER'.
-        destruct W as [s' i' Q' L|s' i' Q' L].
-        * apply R1_pending2; try reflexivity; try assumption.
-        * apply R1_trailers; try reflexivity; assumption.
+        assert (Q : P2 rb Y (set_trailers (set_decoded s Y1) (Some rb)) (mkInner (x :: r) p e) U).
+        { destruct s; cbn in *. repeat split; try assumption.
+          unfold avail. cbn -[datas concat]. rewrite <- app_assoc. exact ER. }
+        refine (res2_res1 P Y rb _ _ _ _ _ _ _ Etk Efs Q _ _); [cbn; lia|].
+        apply loop2; [exact Q|cbn [length] in *; lia].
+      + rewrite (loop_ret _ _ _ _ _ EH). now apply (R1_trailer_err _ _ _ _ P Y e0).
+      + rewrite (loop_ret _ _ _ _ _ EH). now apply (R1_bad _ _ _ _ h t).
       + now apply Step.
   Qed.
 
@@ -689,17 +807,20 @@ Section Body.
     rewrite (loop_fall_done _ _ _ (hand_out_empty s HD) Hn). now rewrite HD, Ht.
   Qed.
 
-  Lemma drain2 n : forall s i, P2 s i -> (length (i_evs i) + 2 <= n)%nat ->
-    drain_l n s i = [OTrailers rb; ONone].
+  Lemma drain2 rb Y U n : forall s i, P2 rb Y s i U -> (length (i_evs i) + 2 <= n)%nat ->
+    drain_l n s i =
+    if nonempty (avail s i) then [OErr E_DataAfterTrailers] else [OTrailers rb; ONone].
   Proof.
     induction n as [|n IH]; intros s i Q L; [lia|].
     pose proof Q as (Hd & _). rewrite drain_l_S, (poll_frame_decode _ _ _ Hd).
     destruct i as [evs p e]. cbn [i_evs] in L.
-    pose proof (loop2 evs (fuel_of (mkInner evs p e)) s p e Q ltac:(unfold fuel_of; cbn [i_evs]; lia)) as W.
+    pose proof (loop2 rb Y U evs (fuel_of (mkInner evs p e)) s p e Q
+                  ltac:(unfold fuel_of; cbn [i_evs]; lia)) as W.
     remember (loop _ _ _) as res eqn:ER. clear ER.
-    destruct W as [s' i' Q' L'|s' i' Q' L'].
-    - apply IH; [exact Q'|lia].
-    - destruct n as [|n]; [lia|]. now rewrite (drain_fin n s' i' Q').
+    destruct W as [s' i' Q' L' E|s' i' Q' L' E|s' i' E].
+    - rewrite <- E. apply IH; [exact Q'|cbn [i_evs] in L'; lia].
+    - rewrite E. cbn [nonempty]. destruct n as [|n]; [lia|]. now rewrite (drain_fin n s' i' Q').
+    - destruct (avail s (mkInner evs p e)); [congruence|reflexivity].
   Qed.
 
   Lemma P1_avail s i s' i' fs U : P1 s i fs U -> P1 s' i' fs U -> avail s' i' = avail s i.
@@ -718,11 +839,19 @@ Section Body.
     destruct fa as [|x fa]; [congruence|]. intros _. rewrite fcat_cons, app_length.
     unfold fbytes. rewrite frame_length. lia.
   Qed.
+  Lemma div5_step a b : (5 <= b)%nat -> (a / 5 + 1 <= (b + a) / 5)%nat.
+  Proof.
+    intros L. replace (a / 5 + 1)%nat with ((a + 1 * 5) / 5)%nat by (rewrite Nat.div_add by lia; reflexivity).
+    apply Nat.div_le_mono; lia.
+  Qed.
 
-  (* a complete body *)
-  Lemma drain1_complete n : forall s i fs, P1 s i fs [] ->
+  (* everything arrives: the whole frames (all of them unless a bad flag stops the parse), then
+     the ending that belongs to the kind of tail *)
+  Lemma drain1_all n : forall s i fs, P1 s i fs [] ->
     (length (i_evs i) + length (avail s i) / 5 + 2 <= n)%nat ->
-    exists ds, drain_l n s i = map OData ds ++ [OTrailers rb; ONone] /\ concat ds = fcat fs.
+    exists ds fa fb,
+      fs = fa ++ fb /\ concat ds = fcat fa /\
+      drain_l n s i = map OData ds ++ expected_end tk /\ (is_bad tk = false -> fb = []).
   Proof.
     induction n as [|n IH]; intros s i fs Q L; [lia|].
     pose proof Q as (Hd & _). rewrite drain_l_S, (poll_frame_decode _ _ _ Hd).
@@ -730,29 +859,39 @@ Section Body.
     pose proof (loop1 evs (fuel_of (mkInner evs p e)) s p e fs [] Q
                   ltac:(unfold fuel_of; cbn [i_evs]; lia)) as W.
     remember (loop _ _ _) as res eqn:ER. clear ER.
-    destruct W as [s' i' Q' L'|fa fb s' i' Nfa Efs Q' L'|s' i' Efs EU Q' L'|s' i' Efs EU Q' L'
+    destruct W as [s' i' Q' L'|fa fb s' i' Nfa Efs Q' L'|P Y rb s' i' Etk Efs Q' L'
+                  |P Y rb s' i' Etk Efs EY Q' L'|P Y rb a s' i' Etk Efs Na Ea
+                  |P Y e0 s' i' Etk Efs|h t s' i' Etk
                   |s' i' s0 NU E1 E2 E3 E4 E5|s' i' NU E1]; try congruence.
     - cbn [i_evs] in L'. apply IH; [exact Q'|]. rewrite (P1_avail _ _ _ _ _ _ Q Q'). lia.
     - cbn [i_evs] in L'. subst fs.
       pose proof (P1_avail_data _ _ _ _ _ _ _ Q Q') as EA.
       pose proof (fcat_len_ge fa Nfa) as L5.
-      destruct (IH s' i' fb Q') as [ds [E1 E2]].
-      { rewrite EA, app_length in L.
-        replace (length (fcat fa) + length (avail s' i'))%nat
-          with (length (avail s' i') + (length (fcat fa) - 5) + 1 * 5)%nat in L by lia.
-        rewrite Nat.div_add in L by lia.
-        assert ((length (avail s' i')) / 5 <= (length (avail s' i') + (length (fcat fa) - 5)) / 5)%nat
-          by (apply Nat.div_le_mono; lia).
-        lia. }
-      exists (fcat fa :: ds). cbn [map app concat]. rewrite E1, E2, fcat_app. split; reflexivity.
-    - cbn [i_evs] in L'. subst fs. exists []. cbn [map app concat fcat]. split; [|reflexivity].
-      apply drain2; [exact Q'|lia].
-    - subst fs. exists []. cbn [map app concat fcat]. split; [|reflexivity].
+      destruct (IH s' i' fb Q') as (ds & fa' & fb' & H1 & H2 & H3 & H4).
+      { rewrite EA, app_length in L. pose proof (div5_step (length (avail s' i')) _ L5). lia. }
+      exists (fcat fa :: ds), (fa ++ fa'), fb'. subst fb.
+      cbn [map app concat]. rewrite H3, H2, fcat_app, <- app_assoc.
+      repeat split; try reflexivity. exact H4.
+    - cbn [i_evs] in L'. subst fs. exists [], [], []. cbn [map app concat fcat].
+      repeat split; try reflexivity.
+      rewrite (drain2 rb Y [] n s' i' Q' ltac:(lia)).
+      destruct Q' as (_ & _ & _ & _ & A). rewrite app_nil_r in A. rewrite A, Etk. reflexivity.
+    - subst fs. exists [], [], []. cbn [map app concat fcat].
+      repeat split; try reflexivity. rewrite Etk. cbn [expected_end]. rewrite EY. cbn [nonempty].
       destruct n as [|n]; [lia|]. now rewrite (drain_fin n s' i' Q').
+    - subst fs. exists [], [], []. cbn [map app concat fcat].
+      repeat split; try reflexivity. rewrite Etk. cbn [expected_end].
+      rewrite app_nil_r in Ea. subst Y. destruct a; [congruence|reflexivity].
+    - subst fs. exists [], [], []. cbn [map app concat fcat].
+      repeat split; try reflexivity. rewrite Etk. reflexivity.
+    - exists [], [], fs. cbn [map app concat fcat].
+      repeat split; try reflexivity. + rewrite Etk. reflexivity. + rewrite Etk. discriminate.
   Qed.
 
-  (* a body that stops early: [U] never arrives *)
-  Lemma drain1_cut n : forall s i fs U, P1 s i fs U -> U <> [] ->
+  (* a body that stops early: [U] never arrives (stated for a valid tail: a trailers frame that
+     decodes and nothing after it) *)
+  Lemma drain1_cut P rb n : tk = TK_trailers P [] (inl rb) ->
+    forall s i fs U, P1 s i fs U -> U <> [] ->
     (length (i_evs i) + length (avail s i) / 5 + 2 <= n)%nat ->
     exists ds fa fb leftover,
       fs = fa ++ fb /\ concat ds = fcat fa /\ concat ds ++ leftover = avail s i /\
@@ -760,14 +899,16 @@ Section Body.
       (leftover <> [] ->
        exists s0, trailers s0 = None /\ decoded s0 = leftover /\ hand_out s0 = HFall s0).
   Proof.
-    induction n as [|n IH]; intros s i fs U Q NU L; [lia|].
+    intros Hk. induction n as [|n IH]; intros s i fs U Q NU L; [lia|].
     pose proof Q as (Hd & _). rewrite drain_l_S, (poll_frame_decode _ _ _ Hd).
     destruct i as [evs p e]. cbn [i_evs] in L.
     pose proof (loop1 evs (fuel_of (mkInner evs p e)) s p e fs U Q
                   ltac:(unfold fuel_of; cbn [i_evs]; lia)) as W.
     remember (loop _ _ _) as res eqn:ER. clear ER.
-    destruct W as [s' i' Q' L'|fa fb s' i' Nfa Efs Q' L'|s' i' Efs EU Q' L'|s' i' Efs EU Q' L'
-                  |s' i' s0 NU' E1 E2 E3 E4 E5|s' i' NU' E1]; try congruence.
+    destruct W as [s' i' Q' L'|fa fb s' i' Nfa Efs Q' L'|P' Y rb' s' i' Etk Efs Q' L'
+                  |P' Y rb' s' i' Etk Efs EY Q' L'|P' Y rb' a s' i' Etk Efs Na Ea
+                  |P' Y e0 s' i' Etk Efs|h t s' i' Etk
+                  |s' i' s0 NU' E1 E2 E3 E4 E5|s' i' NU' E1].
     - cbn [i_evs] in L'.
       destruct (IH s' i' fs U Q' NU) as (ds & fa & fb & lo & H1 & H2 & H3 & H4 & H5).
       { rewrite (P1_avail _ _ _ _ _ _ Q Q'). lia. }
@@ -776,16 +917,16 @@ Section Body.
       pose proof (P1_avail_data _ _ _ _ _ _ _ Q Q') as EA.
       pose proof (fcat_len_ge fa Nfa) as L5.
       destruct (IH s' i' fb U Q' NU) as (ds & fa' & fb' & lo & H1 & H2 & H3 & H4 & H5).
-      { rewrite EA, app_length in L.
-        replace (length (fcat fa) + length (avail s' i'))%nat
-          with (length (avail s' i') + (length (fcat fa) - 5) + 1 * 5)%nat in L by lia.
-        rewrite Nat.div_add in L by lia.
-        assert ((length (avail s' i')) / 5 <= (length (avail s' i') + (length (fcat fa) - 5)) / 5)%nat
-          by (apply Nat.div_le_mono; lia).
-        lia. }
+      { rewrite EA, app_length in L. pose proof (div5_step (length (avail s' i')) _ L5). lia. }
       exists (fcat fa :: ds), (fa ++ fa'), fb', lo. subst fb.
       cbn [map app concat]. rewrite H4, H2, fcat_app, EA, <- H3, H2. rewrite <- !app_assoc.
       repeat split; try reflexivity. exact H5.
+    - exfalso. rewrite Hk in Etk. injection Etk as _ <- _.
+      destruct Q' as (_ & _ & _ & _ & A). apply app_eq_nil in A as [_ A]. contradiction.
+    - exfalso. rewrite Hk in Etk. injection Etk as _ <- _. congruence.
+    - exfalso. rewrite Hk in Etk. injection Etk as _ <- _. apply app_eq_nil in Ea as [Ea _]. contradiction.
+    - exfalso. rewrite Hk in Etk. discriminate.
+    - exfalso. rewrite Hk in Etk. discriminate.
     - exists [], [], fs, (decoded s'). cbn [map app concat fcat].
       replace (nonempty (decoded s')) with true
         by (symmetry; destruct (decoded s'); [congruence|reflexivity]).
@@ -803,7 +944,7 @@ Section Body.
     assert (HA : decoded s0 ++ T = fcat g ++ T) by now rewrite HD.
     pose proof (hand_out_spec s0 g T Ht Hok HA) as HS. rewrite EH in HS.
     pose proof (fcat_len_ge g Ng) as L5.
-    inversion HS as [E0| | |NE NR WH].
+    inversion HS as [E0| | | | |NE NR WH].
     - rewrite HD in E0. rewrite E0 in L5. cbn in L5. lia.
     - destruct WH as [WH|[WH|(fa & y & fb & D' & E1 & E2 & E3)]].
       + rewrite HD in WH. unfold nlen in WH. lia.
@@ -823,10 +964,10 @@ Proof. reflexivity. Qed.
 Lemma dp_Forall evs : only_data_or_pending evs = true -> Forall dp evs.
 Proof. unfold only_data_or_pending. rewrite forallb_forall, Forall_forall. intros H x I. now apply H. Qed.
 
-Lemma init_P1 tl frames evs U :
+Lemma init_P1 tk frames evs U :
   frames_ok frames -> only_data_or_pending evs = true ->
-  concat (datas evs) ++ U = fcat frames ++ trailers_frame tl ->
-  P1 tl init (mk_inner evs) frames U.
+  concat (datas evs) ++ U = fcat frames ++ tail_bytes tk ->
+  P1 tk init (mk_inner evs) frames U.
 Proof.
   intros Hf He H. unfold P1, init, mk_inner, avail. cbn [dir trailers inner_done decoded i_evs app].
   repeat split; try reflexivity; try assumption. now apply dp_Forall.
@@ -835,6 +976,14 @@ Qed.
 Lemma init_bound evs :
   (length (i_evs (mk_inner evs)) + length (avail init (mk_inner evs)) / 5 + 2 <= poll_cap evs)%nat.
 Proof. unfold poll_cap, avail, init, mk_inner. cbn [i_evs decoded app]. lia. Qed.
+
+(* the tail of a valid body: its trailers frame, nothing after it *)
+Definition tk_valid (tl : hm) : tail_kind := TK_trailers (encode_trailers tl) [] (inl (read_back tl)).
+Lemma tk_valid_ok tl : trailers_ok tl = true -> nlen (encode_trailers tl) <= U32_MAX ->
+  nlen tl <= HM_MAX_NAMES -> tail_ok (tk_valid tl).
+Proof. intros Ht Hl Hc. split; [exact Hl|]. now apply decode_trailers_frame_ok. Qed.
+Lemma tk_valid_bytes tl : tail_bytes (tk_valid tl) = trailers_frame tl.
+Proof. unfold tk_valid, tail_bytes, trailers_frame. apply app_nil_r. Qed.
 
 (* every chunking of a complete body, Pending anywhere: the message bytes, then all trailers
    (a value loses one leading space, see read_back), then the end *)
@@ -846,9 +995,11 @@ Theorem any_chunking_gen frames tl evs :
   exists ds, run evs = map OData ds ++ [OTrailers (read_back tl); ONone] /\ concat ds = fcat frames.
 Proof.
   intros Hf Ht Hl Hc He H. rewrite run_drain_l.
-  apply (drain1_complete tl Ht Hl Hc).
-  - apply init_P1; try assumption. now rewrite app_nil_r.
+  destruct (drain1_all (tk_valid tl) (tk_valid_ok tl Ht Hl Hc) (poll_cap evs) init (mk_inner evs) frames)
+    as (ds & fa & fb & H1 & H2 & H3 & H4).
+  - apply init_P1; try assumption. now rewrite app_nil_r, tk_valid_bytes.
   - apply init_bound.
+  - rewrite (H4 eq_refl), app_nil_r in H1. subst fa. exists ds. split; [exact H3|exact H2].
 Qed.
 
 Theorem any_chunking frames tl evs :
@@ -862,7 +1013,7 @@ Theorem any_chunking frames tl evs :
 Proof.
   intros Hf Ht Hs Hl Hc He H.
   destruct (any_chunking_gen frames tl evs Hf Ht Hl Hc He H) as [ds [E1 E2]].
-  exists ds, tl. rewrite (read_back_id tl Hs) in E1. repeat split; try assumption. 
+  exists ds, tl. rewrite (read_back_id tl Hs) in E1. repeat split; try assumption.
 Qed.
 
 (* a body cut off inside a frame (header, payload or the trailers frame) fails *)
@@ -877,9 +1028,10 @@ Theorem truncation_errors frames tl evs P U :
     frames = fa ++ fb /\ concat ds = fcat fa /\ run evs = map OData ds ++ [OErr E_EOF].
 Proof.
   intros Hf Ht Hl Hc He H NU NB HP. rewrite run_drain_l.
-  destruct (drain1_cut tl Ht Hl Hc (poll_cap evs) init (mk_inner evs) frames U)
+  destruct (drain1_cut (tk_valid tl) (tk_valid_ok tl Ht Hl Hc) _ _ (poll_cap evs) eq_refl
+              init (mk_inner evs) frames U)
     as (ds & fa & fb & lo & H1 & H2 & H3 & H4 & H5).
-  - apply init_P1; try assumption. now rewrite HP.
+  - apply init_P1; try assumption. now rewrite HP, tk_valid_bytes.
   - exact NU.
   - apply init_bound.
   - exists ds, fa, fb. repeat split; try assumption.
@@ -889,7 +1041,7 @@ Proof.
 Qed.
 
 (* a body that stops exactly between two frames - in particular one without any trailers
-   frame - ends cleanly, without trailers: the layer above sees that grpc-status is missing *)
+   frame - is delivered completely and then ends cleanly, WITHOUT trailers *)
 Theorem cut_between_frames fa tl evs :
   frames_ok fa -> trailers_ok tl = true ->
   nlen (encode_trailers tl) <= U32_MAX -> nlen tl <= HM_MAX_NAMES ->
@@ -898,9 +1050,10 @@ Theorem cut_between_frames fa tl evs :
   exists ds, run evs = map OData ds ++ [ONone] /\ concat ds = fcat fa.
 Proof.
   intros Hf Ht Hl Hc He HP. rewrite run_drain_l.
-  destruct (drain1_cut tl Ht Hl Hc (poll_cap evs) init (mk_inner evs) fa (trailers_frame tl))
+  destruct (drain1_cut (tk_valid tl) (tk_valid_ok tl Ht Hl Hc) _ _ (poll_cap evs) eq_refl
+              init (mk_inner evs) fa (trailers_frame tl))
     as (ds & fa1 & fb1 & lo & H1 & H2 & H3 & H4 & H5).
-  - apply init_P1; try assumption. now rewrite HP.
+  - apply init_P1; try assumption. now rewrite HP, tk_valid_bytes.
   - unfold trailers_frame. rewrite frame_unfold. discriminate.
   - apply init_bound.
   - unfold avail, init, mk_inner in H3. cbn [decoded i_evs app] in H3.
@@ -912,8 +1065,145 @@ Proof.
       assert (NE : fcat (x :: fb1) <> []).
       { rewrite fcat_cons. unfold fbytes. rewrite frame_unfold. discriminate. }
       destruct (H5 NE) as (s0 & Q1 & Q2 & Q3).
-      refine (hand_out_whole tl Ht Hl Hc s0 (x :: fb1) Q1 _ _ Q2 Q3); [|discriminate].
+      refine (hand_out_whole (tk_valid tl) (tk_valid_ok tl Ht Hl Hc) s0 (x :: fb1) Q1 _ _ Q2 Q3); [|discriminate].
       subst fa. unfold frames_ok in Hf. rewrite Forall_app in Hf. tauto.
+Qed.
+
+(* ================= malformed bodies ================= *)
+(* the general statement: valid frames, then a tail of one of the malformed kinds, every byte
+   delivered, any chunking *)
+Theorem malformed_gen tk frames evs :
+  tail_ok tk -> frames_ok frames -> only_data_or_pending evs = true ->
+  concat (datas evs) = fcat frames ++ tail_bytes tk ->
+  exists ds fa fb,
+    frames = fa ++ fb /\ concat ds = fcat fa /\ run evs = map OData ds ++ expected_end tk /\
+    (is_bad tk = false -> fb = []).
+Proof.
+  intros Hk Hf He H. rewrite run_drain_l.
+  apply (drain1_all tk Hk); [|apply init_bound].
+  apply init_P1; try assumption. now rewrite app_nil_r.
+Qed.
+
+(* (a) a byte that is no legal flag (not 0, 1, 0x80) where a frame has to start, with at least
+   four more bytes after it: whole frames (possibly not all that were buffered), then the error *)
+Theorem malformed_bad_flag frames h t evs :
+  frames_ok frames -> h <> 0 -> h <> 1 -> h <> GRPC_WEB_TRAILERS_BIT -> 4 <= nlen t ->
+  only_data_or_pending evs = true ->
+  concat (datas evs) = fcat frames ++ h :: t ->
+  exists ds fa fb,
+    frames = fa ++ fb /\ concat ds = fcat fa /\ run evs = map OData ds ++ [OErr (E_BadFlag h)].
+Proof.
+  intros Hf H0 H1 H128 Ht He H.
+  destruct (malformed_gen (TK_bad h t) frames evs ltac:(cbn; tauto) Hf He H) as (ds & fa & fb & A & B & C & _).
+  now exists ds, fa, fb.
+Qed.
+
+(* (b) any bytes after a complete valid trailers frame - (c) in particular a second trailers
+   frame: every message frame, then the error; the trailers are NOT handed out *)
+Theorem malformed_after_trailers frames tl Y evs :
+  frames_ok frames -> trailers_ok tl = true ->
+  nlen (encode_trailers tl) <= U32_MAX -> nlen tl <= HM_MAX_NAMES -> Y <> [] ->
+  only_data_or_pending evs = true ->
+  concat (datas evs) = fcat frames ++ trailers_frame tl ++ Y ->
+  exists ds, run evs = map OData ds ++ [OErr E_DataAfterTrailers] /\ concat ds = fcat frames.
+Proof.
+  intros Hf Ht Hl Hc NY He H.
+  destruct (malformed_gen (TK_trailers (encode_trailers tl) Y (inl (read_back tl))) frames evs)
+    as (ds & fa & fb & A & B & C & D); try assumption.
+  - split; [exact Hl|]. now apply decode_trailers_frame_ok.
+  - rewrite (D eq_refl), app_nil_r in A. subst fa. exists ds. split; [|exact B].
+    cbn [expected_end] in C. destruct Y; [congruence|exact C].
+Qed.
+
+(* (d) a trailers frame whose block does not decode (whatever the reason: a line without ':',
+   an illegal name or value): every message frame, then that error *)
+Theorem malformed_trailers_block frames P e evs :
+  frames_ok frames -> nlen P <= U32_MAX ->
+  decode_trailers_frame (frame GRPC_WEB_TRAILERS_BIT P) = DErr e ->
+  only_data_or_pending evs = true ->
+  concat (datas evs) = fcat frames ++ frame GRPC_WEB_TRAILERS_BIT P ->
+  exists ds, run evs = map OData ds ++ [OErr e] /\ concat ds = fcat frames.
+Proof.
+  intros Hf Hl Hd He H.
+  destruct (malformed_gen (TK_trailers P [] (inr e)) frames evs)
+    as (ds & fa & fb & A & B & C & D); try assumption.
+  - split; assumption.
+  - cbn [tail_bytes]. now rewrite app_nil_r.
+  - rewrite (D eq_refl), app_nil_r in A. subst fa. exists ds. split; [exact C|exact B].
+Qed.
+
+(* ... and a line without ':' after any valid lines is such a block *)
+Lemma split_crlf_block_app tl rest : trailers_ok tl = true ->
+  split_crlf [] (encode_trailers tl ++ rest) = map line_of tl ++ split_crlf [] rest.
+Proof.
+  induction tl as [|e tl IH]; intros H; [reflexivity|].
+  cbn [trailers_ok forallb] in H. apply andb_true_iff in H as [He Ht].
+  unfold entry_ok in He. apply andb_true_iff in He as [Hk Hv].
+  unfold name_ok in Hk. apply andb_true_iff in Hk as [_ Hk].
+  cbn [encode_trailers flat_map map]. fold (encode_trailers tl). unfold trailer_line.
+  replace (((fst e ++ [58] ++ snd e ++ [13; 10]) ++ encode_trailers tl) ++ rest)
+    with (line_of e ++ 13 :: 10 :: (encode_trailers tl ++ rest))
+    by (unfold line_of; repeat rewrite <- app_assoc; cbn [app]; reflexivity).
+  rewrite split_crlf_line.
+  - cbn [rev app]. f_equal. now apply IH.
+  - unfold line_of. intros x I. apply in_app_or in I as [I|[<-|I]].
+    + now apply (token_not _ _ Hk I).
+    + discriminate.
+    + now apply (value_not _ _ Hv I).
+Qed.
+
+Lemma split_colon_none l : (forall x, In x l -> x <> 58) -> split_colon l = (l, None).
+Proof.
+  induction l as [|x l IH]; intros H; [reflexivity|]. cbn [split_colon].
+  replace (x =? 58) with false by (symmetry; apply N.eqb_neq, H; left; reflexivity).
+  rewrite IH; [reflexivity|]. intros y I. apply H. right. exact I.
+Qed.
+
+Lemma decode_lines_app tl : forall more m names, trailers_ok tl = true ->
+  names <= nlen m -> nlen m + nlen tl <= HM_MAX_NAMES ->
+  exists names', names' <= nlen (m ++ read_back tl) /\
+    decode_lines (map line_of tl ++ more) m names = decode_lines more (m ++ read_back tl) names'.
+Proof.
+  induction tl as [|e tl IH]; intros more m names H Hn Hm.
+  - exists names. cbn [map app read_back]. rewrite app_nil_r. split; [exact Hn|reflexivity].
+  - cbn [trailers_ok forallb] in H. apply andb_true_iff in H as [He Ht].
+    unfold entry_ok in He. apply andb_true_iff in He as [Hk Hv].
+    cbn [map app decode_lines]. unfold line_of at 1.
+    pose proof Hk as Hk'. unfold name_ok in Hk'. apply andb_true_iff in Hk' as [_ Hk'].
+    rewrite split_colon_spec by (intros x I; now apply (token_not _ _ Hk' I)).
+    rewrite trailer_value_spec by exact Hv.
+    rewrite header_name_ok by exact Hk.
+    rewrite strip_sp_ok by exact Hv. cbn [negb].
+    rewrite nlen_cons in Hm.
+    replace (names =? HM_MAX_NAMES) with false by lia.
+    destruct (IH more (hm_append m (fst e) (strip_sp (snd e)))
+                (if hm_contains m (fst e) then names else names + 1) Ht) as (n' & L' & E').
+    + unfold hm_append. rewrite nlen_app, nlen_cons, nlen_nil. destruct (hm_contains m (fst e)); lia.
+    + unfold hm_append. rewrite nlen_app, nlen_cons, nlen_nil. lia.
+    + exists n'. unfold hm_append in *. cbn [read_back map]. fold (read_back tl).
+      rewrite <- app_assoc in L', E'. cbn [app] in L', E'. split; assumption.
+Qed.
+
+Theorem malformed_line_without_colon frames tl line rest evs :
+  frames_ok frames -> trailers_ok tl = true -> nlen tl < HM_MAX_NAMES ->
+  (forall x, In x line -> x <> 58 /\ x <> 13) ->
+  let P := encode_trailers tl ++ line ++ 13 :: 10 :: rest in
+  nlen P <= U32_MAX ->
+  only_data_or_pending evs = true ->
+  concat (datas evs) = fcat frames ++ frame GRPC_WEB_TRAILERS_BIT P ->
+  exists ds, run evs = map OData ds ++ [OErr E_NoValue] /\ concat ds = fcat frames.
+Proof.
+  intros Hf Ht Hc Hline P Hl He H.
+  apply (malformed_trailers_block frames P E_NoValue evs); try assumption.
+  unfold decode_trailers_frame. rewrite nlen_frame. replace (5 + nlen P <? 5) with false by lia.
+  replace (ndrop 5 (frame GRPC_WEB_TRAILERS_BIT P)) with P by (rewrite frame_unfold; reflexivity).
+  unfold P. rewrite split_crlf_block_app by exact Ht.
+  rewrite split_crlf_line by (intros x I; now apply Hline). cbn [rev app].
+  destruct (decode_lines_app tl (line :: split_crlf [] rest) [] 0 Ht) as (n' & _ & E).
+  - unfold nlen. cbn [length]. lia.
+  - unfold nlen at 1. cbn [length]. lia.
+  - rewrite E. cbn [decode_lines]. rewrite split_colon_none by (intros x I; now apply Hline).
+    reflexivity.
 Qed.
 
 (* ================= theorems about every state and every script ================= *)
@@ -1411,4 +1701,26 @@ Theorem never_hangs evs : ~ In OOutOfFuel (run evs).
 Proof.
   rewrite run_drain_l. apply drain_never_hangs; [apply good_init|].
   unfold poll_cap, avail_len, init, mk_inner. cbn [i_evs decoded length]. lia.
+Qed.
+
+(* ================= Body::is_end_stream (fix f0f96413) ================= *)
+(* the http_body contract: when is_end_stream() answers true - over a wrapped body that itself
+   answers true only at its end - the next poll returns None, so a consumer that stops there
+   loses nothing *)
+Theorem is_end_stream_contract s i fuel :
+  call_is_end_stream 1 s i = true -> (2 <= fuel)%nat ->
+  fst (fst (poll_frame fuel s i)) = ONone.
+Proof.
+  unfold call_is_end_stream, poll_frame. destruct (dir s); [|reflexivity].
+  intros H L. apply andb_true_iff in H as [H Ht]. apply andb_true_iff in H as [He Hd].
+  apply negb_true_iff, nonempty_false in Hd.
+  destruct (trailers s) eqn:Et; [discriminate|].
+  unfold inner_eos in He. change (1 =? 1) with true in He. cbv iota in He.
+  destruct i as [evs p e]. cbn [i_evs] in He. destruct evs; [|discriminate].
+  destruct fuel as [|[|f]]; try lia.
+  destruct (inner_done s) eqn:Ed.
+  - rewrite (loop_fall_done _ _ _ (hand_out_empty s Hd) Ed), Hd, Et. reflexivity.
+  - rewrite (loop_fall _ _ _ (hand_out_empty s Hd) Ed). cbn [poll_inner i_evs answer_of].
+    rewrite (loop_fall_done _ _ _ (hand_out_done_fall _ (hand_out_empty s Hd)) eq_refl).
+    cbn [set_done decoded trailers]. rewrite Hd, Et. reflexivity.
 Qed.
